@@ -46,6 +46,13 @@ CHECKS = {
    note="Not judged: des3 string-to-key of empty password with empty salt (n-fold of the empty string is undefined); EncryptionKey.KeyType label when the hinted etype differs from the requested one. PA-data encodings come from the independent DER writer.",
    technique="bounded-exhaustive enumeration of input grids on the real code against a reference model (RFC vectors + JDK as second oracle)",
    engine="enum"),
+ "C14": dict(
+   category="model_checking",
+   text="Keytab files rendered by an independent writer from an enumerated entry alphabet (6 principal shapes incl. empty and 300-byte components x 3 realms x 5 etypes incl. unsupported and negative ids x 5 kvno8/kvno32 shapes x 5 timestamps over the 32-bit range = 2250 entries) x format version {1,2} x 5 hole patterns, plus the empty keytab, all ordered pairs over a sub-alphabet and all sequences up to length 6/8: gokrb5's parse must equal the independent reader field by field, Marshal output must be read back identically by the independent reader and by gokrb5. Key lookup is compared with a model filter for every query of a near-miss product (6 principals x 4 realms x 7 kvnos x 3 etypes) against every 1-3 entry keytab of a 10-entry lookup alphabet; AddEntry is checked for six etypes against the reference string-to-key.",
+   design="DESIGN.md 2/C14",
+   note="Timestamps compared modulo 2^32 and key type as sign-extended 16 bits (the format stores unsigned fields). Lookup alphabet avoids empty keys and timestamps >= 2^31 (signedness of 'newest' is not settled by the statement). Native byte order for version 1 is little-endian on this platform.",
+   technique="bounded-exhaustive enumeration of file models and lookups on the real code against an independent format implementation and a model filter",
+   engine="enum"),
 }
 
 TODO_REASON = "check not yet built in this revision of /verif (work in progress; see DESIGN.md section 2 for the planned bounded-exhaustive exploration)"
